@@ -119,9 +119,11 @@ pub enum TokenType {
 
     // Separate the single byte and double byte representations
     // because those have different valid prefixes.
-    #[regex(r"'[^']*'")]
+    // A dollar sign escapes the following character (so that $' and $" do not
+    // end the string).
+    #[regex(r"'([^'$]|\$[^\r\n])*'")]
     SingleByteString,
-    #[regex("\"[^\"]*\"")]
+    #[regex("\"([^\"$]|\\$[^\r\n])*\"")]
     DoubleByteString,
 
     // B.1.1 Letters, digits and identifier
